@@ -72,6 +72,11 @@ CHECKS = {
          "Servers with three users (same mailbox names, own content). Random batches of all 27 mailbox/message command kinds before LOGIN, after failed LOGINs, without a selection, after CLOSE/UNSELECT and after a failed SELECT: each must be answered NO/BAD, leak no data responses, and leave the complete observation of every user (LIST, LSUB, UIDs, flags, markers) unchanged; CAPABILITY/NOOP/ID still work. 15 wrong user/password combinations in quoted and literal forms never authenticate. One user's 25 random mutating commands (and another user's connector updates) never change what the other users see and no view shows a foreign message. 16 jail scripts (F/S/new-connection sequences, second rounds): the answer after three consecutive failures must not arrive earlier than jail time after the third failing LOGIN was sent.",
          "The jail oracle is a lower bound on wall time (load can only make it pass); it does not show that unjailed logins are prompt. AUTHENTICATE and STARTTLS are not exercised (no TLS configured).",
          "DESIGN.md §4 C18"),
+ "C20": ("exploration",
+         "fault-schedule monitor: the harness connector rejects CreateMessage on a schedule; a model of normal mailboxes and of the recovery mailbox is compared with fresh views and LIST after every step",
+         "Histories of APPEND (simple, generated MIME trees, undecodable text parts, odd charsets; normal and \\Drafts mailboxes) with the remote accepting, rejecting (plain and wrapped error) or rejecting for size; re-sends of rejected messages while they are in the recovery mailbox and after they left it (MOVE, UID MOVE, COPY, EXPUNGE); two sessions sending the same rejected message at once; APPEND/CREATE/RENAME/DELETE aimed at the recovery mailbox in several spellings; clean restarts. After every step: OK => message under the announced UID with its bytes; rejected => NO and exactly one copy with its bytes in the recovery mailbox; the recovery mailbox is listed exactly while non-empty; protected commands refused without effect; taken-out messages arrive with their bytes.",
+         "For rejections because of size nothing is required (the model follows the server). Messages the server's own validation refuses (BAD) are not expected anywhere.",
+         "DESIGN.md §4 C20"),
  "C16": ("exploration",
          "reference resolver monitor: generated message sets (hostile magnitudes, both range orders, '*', unions) against views with UID gaps; selected messages / BAD+no-effect compared with an RFC 3501 set resolver; exhaustive small-n table in thorough",
          "Runs the real server and, for views of 0-12 messages with UID gaps, issues FETCH/STORE/COPY/MOVE/SEARCH/UID EXPUNGE (sequence and UID forms) with generated sets whose numbers include 0, n+1, 2^31+-1, 2^32+-1, 2^32+k, 2^63+-1, 2^64+k, 10^30; the messages actually affected (rows returned, flags set, messages copied/moved/expunged, search results) must equal what an independent resolver computes, an invalid sequence number must give BAD and leave source and destination unchanged. Thorough adds all sets of <=2 ranges over {1..n+2,*} for n<=4.",
